@@ -2,6 +2,7 @@ package batching
 
 import (
 	"context"
+	"sync"
 )
 
 type BatchFetcher[T, R any] func(ctx context.Context, events []T) ([]R, error)
@@ -15,6 +16,12 @@ type ReorderFetcher[T, R any] struct {
 	fetchBatch BatchFetcher[T, R]
 	errChan    chan error
 	buffer     *ReorderBuffer[[]R]
+
+	// flushMu makes taking a batch out of the batcher and reserving its output
+	// position one step. flush is called by the batch timeout goroutine and by
+	// the caller of Add; without it the two could reserve positions in the
+	// opposite order of their batches.
+	flushMu sync.Mutex
 }
 
 type NewReorderFetcherParams[T, R any] struct {
@@ -69,15 +76,19 @@ func (d *ReorderFetcher[T, R]) Flush(ctx context.Context) {
 
 // flush the current batch and then asynchronously run the `FetchBatch` callback.
 func (d *ReorderFetcher[T, R]) flush(ctx context.Context, token BatchToken) {
-	events := d.batcher.Flush(token)
 	if d.batcher == nil {
 		panic("batcher became nil")
 	}
+
+	d.flushMu.Lock()
+	events := d.batcher.Flush(token)
 	if len(events) == 0 {
+		d.flushMu.Unlock()
 		return
 	}
-
 	seqNum := d.buffer.Reserve()
+	d.flushMu.Unlock()
+
 	go func() {
 		result, err := d.fetchBatch(ctx, events)
 		if err != nil {
